@@ -73,6 +73,10 @@ func (self *containerMetaList) lookAhead() {
 	for {
 		if self.choiceCase != nil {
 			m = self.choiceCase.nextMeta()
+			if m != nil && self.choiceCase.err != nil && self.err == nil {
+				// the case looks one ahead too: choosing further on has failed already
+				self.err = self.choiceCase.err
+			}
 			if m == nil {
 				if self.choiceCase.err != nil {
 					self.err = self.choiceCase.err
@@ -99,6 +103,9 @@ func (self *containerMetaList) lookAhead() {
 				break
 			} else if chosen != nil {
 				self.choiceCase = newChoiceCaseIterator(self.s, chosen)
+				if self.choiceCase.err != nil && self.choiceCase.next != nil && self.err == nil {
+					self.err = self.choiceCase.err
+				}
 				continue
 			}
 		} else {
